@@ -224,7 +224,7 @@ class _Ctx:
     def call(self, name, fn):
         """Outcome lattice: returns (True, value) only when the call returned and was allowed to."""
         try:
-            v = fn()
+            v = self.r.twice(name, fn)
         except Exception as e:  # noqa: BLE001 - the code under test may raise anything
             if self.region == "must-compute":
                 self.fail("%s:raises:%s" % (name, self.mode), "%s: %s" % (type(e).__name__, str(e)[:300]))
